@@ -26,10 +26,12 @@ struct Case {
     int tclass = 0, iterations = 20;
     double dt = 1e-3, growth = 0;
     unsigned nseed = 1;
+    unsigned rough = 0;  // != 0: the cells of all four runs first undergo the same real edge collapses / splits (unused node and face slots)
     void write(vf::Writer& w) const {
         tissue.write(w);
         for (double v : tr) w.d(v);
         w.i(tclass), w.i(iterations), w.d(dt), w.d(growth), w.u(nseed);
+        w.u(rough);
         w.nl();
     }
     static Case read(vf::Reader& r) {
@@ -37,10 +39,11 @@ struct Case {
         c.tissue = tg::Tissue::read(r);
         for (double& v : c.tr) v = r.d();
         c.tclass = (int)r.i(), c.iterations = (int)r.i(), c.dt = r.d(), c.growth = r.d(), c.nseed = (unsigned)r.u();
+        if (r.more()) c.rough = (unsigned)r.u();
         return c;
     }
 };
-static const char* TC[] = {"fraction_of_size", "10_sizes", "100_sizes", "across_origin", "voxel_multiple", "1000_sizes"};
+static const char* TC[] = {"fraction_of_size", "10_sizes", "100_sizes", "across_origin", "voxel_multiple", "1000_sizes", "origin_on_a_cell_surface"};
 
 static rc::Gen<Case> genCase() {
     using namespace vf;
@@ -63,7 +66,7 @@ static rc::Gen<Case> genCase() {
         for (auto& cd : c.tissue.cells)
             for (size_t i = 0; i < cd.mesh.nn(); i++)
                 for (int q = 0; q < 3; q++) cd.mesh.xyz[3 * i + q] += base[q];
-        c.tclass = *irange(0, 5);
+        c.tclass = *irange(0, 6);
         V3 d(*uniform(-1, 1), *uniform(-1, 1), *uniform(-1, 1));
         if (d.norm() < 1e-2) d = V3(1, 0, 0);
         d = d * (1 / d.norm());
@@ -74,6 +77,15 @@ static rc::Gen<Case> genCase() {
             case 2: d = d * (100 * s); break;
             case 3: d = V3(-2 * base[0], -2 * base[1], -2 * base[2]); break;
             case 4: d = V3(voxel * (*irange(1, 9)), voxel * (*irange(-9, 9)), 0); break;
+            case 6: {
+                // the translated tissue has a node of one of its cells (almost) at the coordinate origin: whatever the code parks at (0,0,0) -
+                // unused node slots - then lies within the contact cut-off of a surface
+                const auto& m = c.tissue.cells[(size_t)*irange(0, (int)c.tissue.cells.size() - 1)].mesh;
+                const V3 p = m.p((unsigned)*irange(0, (int)m.nn() - 1));
+                const double cut = 0.2 * c.tissue.edge;
+                d = p * (-1.0L) + V3(*uniform(-1, 1), *uniform(-1, 1), *uniform(-1, 1)) * (0.25 * cut);
+                break;
+            }
             default: d = d * (1000 * s); break;
         }
         c.tr[0] = (double)d.x, c.tr[1] = (double)d.y, c.tr[2] = (double)d.z;
@@ -81,6 +93,7 @@ static rc::Gen<Case> genCase() {
         c.dt = *rc::gen::element(1e-3, 2e-3, 5e-4);
         c.growth = *rc::gen::element(0.0, 0.0, 30.0);
         c.nseed = (unsigned)*irange(1, 1 << 30);
+        if (*irange(0, 1)) c.rough = (unsigned)*irange(1, 1 << 20);
         return c;
     });
 }
@@ -127,6 +140,8 @@ static std::string run(const Case& k, vf::Ctx& ctx) {
                     }
                 }
         tg::Built b = tg::build(t, 10., 1., &scope);
+        if (k.rough)
+            for (size_t i = 0; i < b.cells.size(); i++) ct::leave_free_slots(b.cells[i], 3 + (int)((k.rough >> (i % 8)) % 5), k.rough + 7919 * i);
         for (auto& ty : b.types) {
             ty->bulk_modulus_ = 1.0;
             ty->avg_growth_rate_ = 0;
@@ -312,6 +327,12 @@ static std::string run(const Case& k, vf::Ctx& ctx) {
                 if (na[i].is_coupled()) any_contact = true;
 #endif
             }
+            if (A->cells()[c]->get_nb_of_faces() < 10 || !(A->cells()[c]->get_volume() > 1e-9 * s * s * s)) {
+                // remeshing has collapsed a cell that is of the order of l_min (a small nucleus) to (almost) nothing: zero volume, infinite pressure;
+                // the solver would remove such a cell by its minimum volume - outside the domain, the case ends here
+                ctx.count("ended_cell_collapsed_by_remeshing");
+                return "";
+            }
             const ld Va = A->cells()[c]->get_volume(), Pa = A->cells()[c]->get_pressure();
             devV = std::max(devV, fabsl(B->cells()[c]->get_volume() - Va) / Va);
             noiseV = std::max(noiseV, std::max(fabsl(N1->cells()[c]->get_volume() - Va), fabsl(N2->cells()[c]->get_volume() - Va)) / Va);
@@ -322,6 +343,10 @@ static std::string run(const Case& k, vf::Ctx& ctx) {
             fprintf(stderr, "after iteration %d: dev %Lg noise %Lg devV %Lg devP %Lg (worst cell %zu node %zu); classes:", it, dev, noise, devV, devP, worst_cell, worst_node);
             for (auto& c : A->cells()) fprintf(stderr, " %d", (int)c->get_cell_type_id());
             fprintf(stderr, "\n");
+            for (size_t c = 0; c < A->cells().size(); c++)
+                fprintf(stderr, "   cell %zu: V A %.17g B %.17g N1 %.17g | P A %.6g B %.6g | Vt A %.6g B %.6g | faces %zu free %zu\n", c, A->cells()[c]->get_volume(), B->cells()[c]->get_volume(), N1->cells()[c]->get_volume(),
+                        A->cells()[c]->get_pressure(), B->cells()[c]->get_pressure(), A->cells()[c]->get_target_volume(), B->cells()[c]->get_target_volume(), A->cells()[c]->get_nb_of_faces(),
+                        cell_tester::free_faces(*A->cells()[c]).size());
         }
         const ld D = T.norm() + 4 * s;
         ld tol = std::max<ld>(1e-12 * s, 1e4 * noise);
